@@ -408,7 +408,7 @@ func chainFields(fn *ssa.Function, v ssa.Value, stop ssa.Value, depth int) ([]em
 
 // tripOfLoop: the linear trip count of a counted / range loop (the bound of its exiting `<` test).
 func tripOfLoop(l *natLoop) (linear, bool) {
-	for b := range l.Blocks {
+	for _, b := range l.ordered() {
 		cond, ok := ifCond(b).(*ssa.BinOp)
 		if !ok || cond.Op != token.LSS {
 			continue
